@@ -42,7 +42,19 @@ func hashInputIssues(s *sided) []sideIssue {
 				case "cap":
 					out = append(out, sideIssue{x, "reads cap(...): spare capacity is not part of the value", "capacity", ""})
 				case "uintptr":
-					out = append(out, sideIssue{x, "converts to uintptr: an address is not part of the value", "address", ""})
+					// the one value whose content is an address: a component of kind unsafe.Pointer (== compares it the same way)
+					isUP := false
+					for _, d := range rs.Run.Decisions {
+						if strings.HasPrefix(d.Sym, "S:") && strings.Contains(d.Sym, ".Kind()#") && d.Choice < len(d.Cands) && d.Cands[d.Choice] == "types.UnsafePointer" {
+							isUP = true
+						}
+						if strings.HasPrefix(d.Sym, "B:") && strings.HasSuffix(d.Sym, fmt.Sprintf(".Kind()==%d", int(types.UnsafePointer))) && d.Choice == 0 {
+							isUP = true
+						}
+					}
+					if !isUP {
+						out = append(out, sideIssue{x, "converts to uintptr: an address is not part of the value", "address", ""})
+					}
 				}
 				if h := rs.hole(id.Name); h != nil && h.Kind == "FUNC" {
 					who := funcHoleWho(rs, id)
